@@ -7,7 +7,7 @@ from hypothesis import strategies as st
 from . import detsched, progs
 from .common import Violation
 
-KINDS = ('stp', 'lpm', 'pf', 'pm')
+KINDS = ('stp', 'lpm', 'pf', 'pm', 'pf2')
 EXCS = ('VErrA', 'VErrB', 'VErrC', 'VBase')
 
 
@@ -72,7 +72,7 @@ def run_case(case, trace_lines=True):
 
     def mkexc(name, where, i):
         e = progs.exc_class(name)(where, i)
-        raised[i] = e
+        raised.setdefault(i, []).append(e)  # several iterators over one object may each hit the same position
         return e
 
     def pull(i):
@@ -128,14 +128,17 @@ def run_case(case, trace_lines=True):
             ds = lazy_dataset.new({key_of(i): v for i, v in enumerate(vals)})
         else:
             ds = lazy_dataset.new(vals)
-        if kind == 'pf':
+        if kind == 'pf2':
+            # two single-thread prefetch stages stacked: two hand-over threads alive at the same time
+            ds = ds.map(pull_fn).prefetch(1, b).map(fn).prefetch(1, max(1, case.get('buffer2', 1)))
+        elif kind == 'pf':
             ds = ds.map(pull_fn).map(fn)
             catch = case.get('catch', False)
             if catch is False:
                 ds = ds.prefetch(w, b)
             else:
                 ds = ds.prefetch(w, b, catch_filter_exception=True if catch is True else progs.exc_spec(catch))
-        else:
+        elif kind == 'pm':
             ds = ds.map(pull_fn).map(fn, num_workers=w, buffer_size=b, backend='t')
         if case.get('copy'):
             ds = ds.copy()  # a copy must behave like the original (all parameters preserved)
@@ -145,6 +148,7 @@ def run_case(case, trace_lines=True):
             tr.len_reported = None
         if case.get('with_key'):
             ds = ds.items()
+        make_iterable.obj = ds
         return ds
 
     def main():
@@ -156,6 +160,18 @@ def run_case(case, trace_lines=True):
                 return
             raise
         k = stop['k']
+        if case.get('dual'):
+            # a second iterator over the SAME dataset object is in flight while the first is consumed
+            it2 = iter(make_iterable.obj)
+            tr.delivered2 = []
+            try:
+                tr.delivered2.append(next(it2))
+            except StopIteration:
+                pass
+            except detsched.Abort:
+                raise
+            except BaseException as e:  # noqa: a generated fault may hit the second iterator first
+                tr.exc2 = e
         try:
             while True:
                 if stop['kind'] != 'exhaust' and len(tr.delivered) >= k:
@@ -173,6 +189,14 @@ def run_case(case, trace_lines=True):
             if isinstance(e, (KeyboardInterrupt, SystemExit, GeneratorExit)):
                 raise
             tr.exc = e
+        if case.get('dual'):
+            try:
+                for x in it2:
+                    tr.delivered2.append(x)
+            except detsched.Abort:
+                raise
+            except BaseException as e:  # noqa
+                tr.exc2 = e
         if not tr.exhausted and tr.exc is None:
             tr.stopped_by_consumer = True
             sched.event('stop-begin', None, yield_after=False)
@@ -268,6 +292,12 @@ def judge_values(tr, check_len=True):
         raise Violation(f'{sig}|{c["kind"]}', f'{describe(tr)}\ndelivered {got}\nexpected  {want}'
                         + (f' then {ename} at position {fail_pos}' if ename else '')
                         + (f'\nraised {tr.exc!r}' if tr.exc is not None else ''))
+    if c.get('dual') and stop['kind'] == 'exhaust' and ename is None:
+        full, _, _, _ = expected_of(c)
+        if getattr(tr, 'exc2', None) is not None or getattr(tr, 'delivered2', full) != full:
+            raise Violation(f'second-iterator-disturbed|{c["kind"]}',
+                            f'{describe(tr)}\na second iterator over the same dataset object delivered '
+                            f'{getattr(tr, "delivered2", None)} ({getattr(tr, "exc2", None)!r}); expected {full}')
     if ename is None:
         if tr.exc is not None:
             raise Violation(f'unexpected-error|{c["kind"]}', f'{describe(tr)}\nraised {tr.exc!r} after {got}')
@@ -275,7 +305,7 @@ def judge_values(tr, check_len=True):
         if tr.exc is None:
             raise Violation(f'error-swallowed|{c["kind"]}',
                             f'{describe(tr)}\ndelivered {got} and ended normally; expected {ename} at {fail_pos}')
-        if tr.exc is not tr.raised.get(fail_pos):
+        if not any(tr.exc is e for e in tr.raised.get(fail_pos, [])):
             raise Violation(f'wrong-error|{c["kind"]}',
                             f'{describe(tr)}\nraised {tr.exc!r}; expected the exception object raised at position '
                             f'{fail_pos}: {tr.raised.get(fail_pos)!r}')
@@ -316,11 +346,13 @@ def judge_readahead(tr):
             handed += 1
         else:
             continue
-        if pulled - handed > b + 2:
+        if pulled - handed > b + 2 + (c.get('buffer2', 1) + 2 if c['kind'] == 'pf2' else 0):
             raise Violation(f'readahead-pulled|{c["kind"]}',
                             f'{describe(tr)}\nat event {clock}: pulled {pulled}, handed {handed}, buffer {b}')
         pool = c['kind'] in ('lpm', 'pm') or (c['kind'] == 'pf' and c['workers'] > 1)
         limit = b if pool else b + 2
+        if c['kind'] == 'pf2':
+            limit = c.get('buffer2', 1) + 2 + b + 2
         if started - handed > limit:
             raise Violation(f'readahead-started|{c["kind"]}',
                             f'{describe(tr)}\nat event {clock}: started {started}, handed {handed}, buffer {b}')
@@ -356,17 +388,21 @@ def st_case(draw, profile):
     """profile: 'plain' (C04), 'stop' (C05), 'fault' (C06), 'readahead' (C07)."""
     kind = draw(st.sampled_from(KINDS))
     if profile == 'readahead':
-        w = 1 if kind == 'stp' else draw(st.integers(1, 3))
+        w = 1 if kind in ('stp', 'pf2') else draw(st.integers(1, 3))
         b = draw(st.integers(w, 4))
         n = draw(st.integers(b + 1, 5 * b + 7))
     else:
         n = draw(st.integers(0, 6))
-        w = 1 if kind == 'stp' else draw(st.integers(1, 3))
+        w = 1 if kind in ('stp', 'pf2') else draw(st.integers(1, 3))
         if profile == 'stop':
             b = draw(st.sampled_from([w, w, w + 1, 4, 1 if w == 1 else w]))
         else:
             b = draw(st.integers(w, 4))
     case = {'kind': kind, 'n': n, 'workers': w, 'buffer': b}
+    if kind == 'pf2':
+        case['buffer2'] = draw(st.integers(1, 3))
+    if kind in ('pf', 'pm', 'pf2') and profile in ('plain', 'fault') and draw(st.integers(0, 3)) == 0:
+        case['dual'] = True
     if kind in ('pf', 'pm'):
         keyed = draw(st.booleans())
         if keyed and not (kind == 'pf' and w > 1):
@@ -399,6 +435,8 @@ def st_case(draw, profile):
         case['src_fail'], case['fn_fail'] = src_fail, fn_fail
         if kind == 'pf':
             case['catch'] = draw(st.sampled_from([False, 'VErrA', ['VErrA', 'VErrC'], 'VErrB']))
+            if 'dual' in case and case['catch'] is not False:
+                case.pop('dual')
             if case['catch'] is not False:
                 case.pop('with_key', None) if w > 1 else None
     if profile == 'plain' and kind == 'pf' and draw(st.integers(0, 2)) == 0:
